@@ -18,6 +18,8 @@ import (
 
 	"github.com/VKCOM/statshouse/internal/api"
 	"github.com/VKCOM/statshouse/internal/data_model"
+	"github.com/VKCOM/statshouse/internal/data_model/gen2/tlstatshouse"
+	"github.com/VKCOM/statshouse/internal/format"
 	vu "github.com/VKCOM/statshouse/internal/verifutil"
 )
 
@@ -720,7 +722,177 @@ func multiCase(r *vu.Rng, o *vu.Out) {
 	if r.Chance(8) {
 		nl = 6 + r.Intn(35)
 	}
-	ls := genLeaves(r, nl)
+	multiCaseWith(r, o, genLeaves(r, nl))
+}
+
+// ---------- the agent -> aggregator path: MultiValueToTL, WriteTL1/ReadTL1, MergeWithTL2 ----------
+
+type tlGroup struct {
+	agent  int64 // host of the sending agent: the host of every contribution without an explicit one
+	leaves []leaf
+}
+
+var tlMeta = func() *format.MetricMetaValue {
+	m := &format.MetricMetaValue{MetricID: 1, Name: "a", Kind: "value"}
+	if err := m.RestoreCachedInfo(); err != nil {
+		panic(err)
+	}
+	return m
+}()
+
+// Groups are merged in memory on their agent (random tree), shipped as TL and merged on the aggregator in the
+// given order. Every group is either fully explicit (all events carry a host) or fully implicit (none does), so
+// that the recorded finding F-C02b (an empty min/max-count host next to a non-empty max host is filled with the
+// max host) cannot occur; all counts are positive (a row with count 0 is not sent at all).
+func runTL(r *vu.Rng, groups []tlGroup, order []int) *data_model.MultiValue {
+	var agg data_model.MultiValue
+	rng := rand.New(r.U64())
+	for _, gi := range order {
+		g := groups[gi]
+		part, _ := runMulti(r.U64(), g.leaves, randTree(r, perm(r, len(g.leaves))))
+		var src tlstatshouse.MultiValue
+		var fm uint32
+		scratch := part.MultiValueToTL(tlMeta, &src, 1, &fm, nil)
+		scratch = src.WriteTL1(scratch[:0], fm)
+		var dst tlstatshouse.MultiValueBytes
+		if _, err := dst.ReadTL1(scratch, fm); err != nil {
+			panic(err)
+		}
+		if ie := agg.MergeWithTL2(rng, &dst, fm, tagOf(g.agent), data_model.AggregatorPercentileCompression); ie != 0 {
+			panic(fmt.Sprintf("ingestion error %d", ie))
+		}
+	}
+	return &agg
+}
+
+func tlCase(r *vu.Rng, o *vu.Out) {
+	agents := []int64{90, 91, 92, 1<<32 + 9}
+	explicit := []int64{1, 2, 3, 7, -5, 1<<32 + 1}
+	counts := []float64{1, 1, 2, 3, 0.5, 1.5, 10}
+	vpool := make([]float64, 1+r.Intn(4))
+	for i := range vpool {
+		vpool[i] = float64(r.Intn(161)-80) / 8
+	}
+	ng := 1 + r.Intn(4)
+	groups := make([]tlGroup, ng)
+	var flat []leaf
+	for gi := range groups {
+		g := &groups[gi]
+		g.agent = agents[r.Intn(len(agents))]
+		implicit := r.Chance(35)
+		nh := 1 + r.Intn(3)
+		for li := 0; li < 1+r.Intn(3); li++ {
+			var l leaf
+			for j := 0; j < 1+r.Intn(3); j++ {
+				e := event{isValue: r.Chance(70), c: counts[r.Intn(len(counts))]}
+				if !implicit {
+					e.host = explicit[r.Intn(nh)]
+				}
+				if e.isValue {
+					e.v = vpool[r.Intn(len(vpool))]
+				}
+				l.events = append(l.events, e)
+			}
+			if r.Chance(30) {
+				for j := 0; j < 1+r.Intn(3); j++ {
+					l.uniq = append(l.uniq, uint64(r.Intn(30)))
+				}
+			}
+			g.leaves = append(g.leaves, l)
+			flat = append(flat, l)
+		}
+	}
+	// the in-memory merge of the same leaves is the recorded (modelled) case
+	line, input := multiCaseWith(r, o, flat)
+	o.Hist["multi/tl-path"]++
+	// expected aggregates; a contribution without a host counts for its agent
+	var cnt, sum, sq float64
+	mn, mx := math.Inf(1), math.Inf(-1)
+	uniq := map[uint64]bool{}
+	host := func(g tlGroup, e event) int64 {
+		if e.host == 0 {
+			return g.agent
+		}
+		return e.host
+	}
+	for _, g := range groups {
+		for _, l := range g.leaves {
+			for _, e := range l.events {
+				cnt += e.c
+				if e.isValue {
+					sum += e.v * e.c
+					sq += e.v * e.v * e.c
+					mn, mx = math.Min(mn, e.v), math.Max(mx, e.v)
+				}
+			}
+			for _, u := range l.uniq {
+				uniq[u] = true
+			}
+		}
+	}
+	minHosts, maxHosts, cntHosts := map[int64]bool{}, map[int64]bool{}, map[int64]bool{}
+	for _, g := range groups {
+		for _, l := range g.leaves {
+			for _, e := range l.events {
+				cntHosts[host(g, e)] = true
+				if e.isValue && e.v == mn {
+					minHosts[host(g, e)] = true
+				}
+				if e.isValue && e.v == mx {
+					maxHosts[host(g, e)] = true
+				}
+			}
+		}
+	}
+	var agentsTxt []string
+	for _, g := range groups {
+		agentsTxt = append(agentsTxt, fmt.Sprintf("%d:%d", g.agent, len(g.leaves)))
+	}
+	input = "tl agents=" + strings.Join(agentsTxt, ",") + " " + input
+	if len(input) > 295 {
+		input = input[:295] + "…"
+	}
+	var orders [][]int
+	if ng <= 3 {
+		orders = allPerms(ng)
+	} else {
+		for i := 0; i < 4; i++ {
+			orders = append(orders, perm(r, ng))
+		}
+	}
+	for _, ord := range orders {
+		v := runTL(r, groups, ord)
+		if v.Value.Count() != cnt {
+			o.Fail("count_is_sum_of_contributions_tl", line, input)
+		}
+		if v.Value.ValueSet != !math.IsInf(mn, 1) {
+			o.Fail("value_set_tl", line, input)
+		}
+		if v.Value.ValueSet {
+			if v.Value.ValueMin != mn || v.Value.ValueMax != mx {
+				o.Fail("min_max_of_contributions_tl", line, input)
+			}
+			if v.Value.ValueSum != sum || v.Value.ValueSumSquare != sq {
+				o.Fail("sum_sumsq_of_contributions_tl", line, input)
+			}
+			if !minHosts[idOf(v.Value.MinHostTag)] {
+				o.Fail("min_host_contributed_min_tl", line, input)
+			}
+			if !maxHosts[idOf(v.Value.MaxHostTag)] {
+				o.Fail("max_host_contributed_max_tl", line, input)
+			}
+		}
+		if !cntHosts[idOf(v.Value.MaxCounterHostTag)] {
+			o.Fail("max_count_host_contributed_tl", line, input)
+		}
+		if int(v.HLL.Size(true)) != len(uniq) {
+			o.Fail("unique_count_of_union_tl", line, input)
+		}
+	}
+}
+
+func multiCaseWith(r *vu.Rng, o *vu.Out, ls []leaf) (int, string) {
+	nl := len(ls)
 	t := randTree(r, perm(r, nl))
 	seed := r.U64()
 	res, draws := runMulti(seed, ls, t)
@@ -755,7 +927,7 @@ func multiCase(r *vu.Rng, o *vu.Out) {
 	}
 	line := o.Case(input, term, nl >= 2 && res.Value.ValueSet, kinds...)
 	if !nonneg {
-		return // the property is about accepted contributions (negative counters are rejected at ingestion)
+		return line, input // the property is about accepted contributions (negative counters are rejected at ingestion)
 	}
 	// ---- oracles: expected aggregates straight from the contributions ----
 	var cnt, sum, sq float64
@@ -835,6 +1007,7 @@ func multiCase(r *vu.Rng, o *vu.Out) {
 			o.Fail("unique_order_independent", line, input)
 		}
 	}
+	return line, input
 }
 
 // ---------- API rows ----------
@@ -1015,8 +1188,10 @@ func main() {
 			continue
 		}
 		switch k := i % 10; {
-		case k < 5:
+		case k < 3:
 			multiCase(r, o)
+		case k < 5:
+			tlCase(r, o)
 		case k < 6:
 			tsCase(r, o)
 		default:
